@@ -84,7 +84,7 @@ let u64max = n_of_string "18446744073709551615"
 
 let cfg_of (c : case) : cfg =
   { tx = c.txv; reserve_sz = c.rsv;
-    sub = (if c.subscribe then Some (n_of_int 1) else None);
+    sub_w = (if c.subscribe then Some (n_of_int 1) else None);
     suppress = not c.subscribe;
     has_attrs = (c.q <> None); has_events = (c.p <> None);
     ev_lo = N0; ev_hi = u64max }
